@@ -109,10 +109,16 @@ struct GenState {
 
   void removeTopPotBreak() {
     if (out.code.back().op == OpCode::POTENTIAL_BREAK) {
-      BreakPoint bp = this->out.line_info[this->getNextPos() - 1];
-      this->out.line_info.erase(
-          this->out.line_info.find(this->getNextPos() - 1));
-      this->out.potential_breaks.erase(this->out.potential_breaks.find(bp));
+      ProgramIndex site = this->getNextPos() - 1;
+      BreakPoint bp = this->out.line_info[site];
+      this->out.line_info.erase(this->out.line_info.find(site));
+      // the line may own earlier sites: drop only this one, and the line only
+      // when no site is left
+      auto entry = this->out.potential_breaks.find(bp);
+      if (entry != this->out.potential_breaks.end()) {
+        std::erase(entry->second, site);
+        if (entry->second.empty()) this->out.potential_breaks.erase(entry);
+      }
       out.code.pop_back();
     }
   }
